@@ -49,6 +49,9 @@ def _beam_step(u, W):
     for w in range(W):
         pw = path[-1].at(w * B + b)
         u.ctx.assume(z3.Implies(pw * B + b == q * B + b, pw == q))
+        # integer arithmetic, stated explicitly because the divisor N is symbolic: equal (parent, node) pairs give equal flat indices
+        sw = sel.at(w * B + b)
+        u.ctx.assume(AND(zint(sw) >= 0, zint(sw) < zint(N), z3.Implies(AND(zint(pw) == zint(q), zint(sw) == zint(m)), zint(pw) * zint(N) + zint(sw) == zint(q) * zint(N) + zint(m))))
     u.prove("beam.kept-are-the-top-W", IMPL(NOT(kept), score(q * B + b, m) <= worst), tags=("C13",))
     u.canary("beam.parent-of-other-instance", bbi.at(b) == path[-1].at(b) * B + (b + 1))
 
